@@ -28,7 +28,7 @@ NOT_APPLICABLE = {
 }
 NOTE = ("Trusts go/types, go/ssa and the VTA call graph of x/tools v0.50.0 and the rule code in /verif/checker; assumes no "
         "unsafe/reflect/cgo/linkname in the module (checked on every run); integer arithmetic, buffer sizes and indices are "
-        "not modelled outside the bitstream counter analysis (which assumes no wrap-around); implicit flows are tracked only for the job count; sink rules are armed against a positive-control fixture on every run.")
+        "not modelled outside the bitstream counter analysis (which assumes no wrap-around) and two constant-interval rules (R-PACK-WIDTH, R-FIELD-WIDTH); implicit flows are tracked only for the job count; sink rules are armed against a positive-control fixture on every run.")
 PENDING = "check not built yet (static rule planned in DESIGN.md); not claimed until it runs clean on the unchanged tree"
 CLAIM = ["C01","C02","C03","C04","C05","C06","C07","C08","C09","C10","C11","C12","C13","C14","C15","C17","C18","C19"]
 
